@@ -1059,7 +1059,8 @@ theorem parseTableCharSet_triv_exists (htriv : ∀ s, cx.ends s = List.range' 1 
 theorem makeTable_charSet_congr (data : List (List (List α))) (width : Int) (header border : Bool)
     (cs cs' : List α) (h : parseTableCharSet cx cs = parseTableCharSet cx cs') :
     makeTable cx data width header border cs = makeTable cx data width header border cs' := by
-  unfold makeTable
+  simp only [makeTable_eq_core]
+  unfold makeTableCore
   rw [h]
 
 /-- **C16, shape, any character set**: `charSet` is replaced by the three atoms
